@@ -4,16 +4,20 @@ import fa_engine
 from props._fa_common import TRUSTED, ASSUMPTIONS, TECHNIQUE
 
 PROP = "C06"
-LEVEL = "other"
-THEOREMS = {"Properties.C06": ["C06_regex_automaton"]}
-LEVEL_TEXT = ("Partial: the Coq theorem shows that the automaton built from a regular expression (reference construction re_fa) accepts exactly the "
-              "expression's denotation, for all expressions; each expression tree returned by to_regex() is then decided language-equal to the input "
-              "automaton by the proved-exact equivalence checker (instance-level certificate). The state-elimination algorithm itself and its textual "
-              "assembly of the expression are not proved for all inputs.")
-LEVEL_NOTE = "Trusted: Coq kernel; Python harness (reads the Regex tree through head/sons). The universal statement about to_regex is not proved."
+LEVEL = "proof"
+THEOREMS = {"Properties.C06": ["C06_regex_automaton", "C06_to_regex_model", "C06_round_trip_model"]}
+LEVEL_TEXT = ("Proof + correspondence: the state-elimination algorithm of EpsilonNFA.to_regex is modelled in Gallina on expression trees (fresh start state "
+              "for several start states, one run per final state, removal of every other state with in.(loop)*.out, the closing two-state formula, the "
+              "union over final states) and proved to denote exactly the language of the automaton, for every well-formed epsilon-NFA "
+              "(C06_to_regex_model), hence the round trip through to_epsilon_nfa (C06_round_trip_model). Each expression tree returned by pyformlang's "
+              "to_regex() is decided language-equal to the input automaton by the proved-exact equivalence checker and compared with the model's "
+              "expression on all words up to length 4 by the proved matcher. pyformlang assembles the expression as text and parses it back; that "
+              "textual assembly is abstracted by the tree model and covered by the per-instance certificate only.")
+LEVEL_NOTE = ("Trusted: Coq kernel; hand-written Gallina model of the elimination (validated against the code by language-level correspondence, not "
+              "regenerated from it); Python harness (reads the Regex tree through head/sons).")
 RULE = ("random epsilon-NFAs with plain-token symbols (0-3 start states, 0-3 final states, start=final, self loops, epsilon moves) x to_regex(); "
         "the returned tree is converted to an automaton by the proved construction and compared with the input by the certified equivalence check")
-EXPLANATION = "Instance-level certified equivalence between each automaton and the expression to_regex() returns; re_fa proved correct for all expressions."
+EXPLANATION = "State elimination proved on a tree-level model for all automata; instance-level certified equivalence between each automaton and the expression to_regex() returns."
 
 
 def generate(ctx):
